@@ -271,6 +271,29 @@ func vdrCase(c *Ctx, focus string) {
 			}
 		}
 	}
+	// calls which some pipeline returns as a whole
+	wholeBound := map[*CallDef]bool{}
+	for _, pl := range prog.Pipelines {
+		var walk func(e *Expr)
+		walk = func(e *Expr) {
+			if e == nil {
+				return
+			}
+			if e.Kind == ERef && !e.Self && len(e.Path) == 0 {
+				for _, cc := range pl.Calls {
+					if cc.Id == e.Call {
+						wholeBound[cc] = true
+					}
+				}
+			}
+			for _, x := range e.Elems {
+				walk(x)
+			}
+		}
+		for _, b := range pl.Ret {
+			walk(b.E)
+		}
+	}
 	// ---- C04 (iii): final outputs exist with their original content ----
 	if !ev.Incomplete && ev.Ambiguous == 0 && !interrupted {
 		act, err := r.ReadTopOuts()
@@ -374,7 +397,11 @@ func vdrCase(c *Ctx, focus string) {
 		}
 		keep := named[p] || retained[p] || (rec.Logical != "" && (named[rec.Logical] || retained[rec.Logical])) ||
 			(rec.InDir != "" && (named[rec.InDir] || retained[rec.InDir]))
-		if !keep && exists(p) && !undeletable(p) {
+		if !keep && exists(p) && !undeletable(p) && wholeBound[in.Call] {
+			// the callee is returned as a whole (all outputs as one struct) by a
+			// pipeline, narrowed to a struct type that does not have this output
+			add("C14", "file-of-whole-bound-callee-left", fmt.Sprintf("file of volatile stage %s survives completion: the call is returned as a whole, bound to a struct type which does not contain the output that names %s", in.Index, rel))
+		} else if !keep && exists(p) && !undeletable(p) {
 			add("C14", "volatile-file-left", fmt.Sprintf("file of volatile stage %s survives completion although neither a top-level output nor a retain names it: %s", in.Index, rel))
 		}
 	}
@@ -737,6 +764,24 @@ func templateVdrProg(plan *Tape) *Prog {
 		}
 		if plan.Draw(4) == 0 {
 			pl.Retain = append(pl.Retain, ref("PRODUCE", "reca"))
+		}
+	}
+	if plan.Draw(3) == 0 {
+		// the producer bound as a whole (all its outputs as one struct) to a consumer
+		// and/or to a top-level output
+		whole := &StructDef{Name: "PRODOUT", Fields: []Field{{"data", txt}, {"more", txt.ArrayOf()}, {"num", intT}}}
+		p.Structs = append(p.Structs, whole)
+		wt := Ty{Base: "PRODOUT"}
+		if mapped {
+			wt = wt.ArrayOf()
+		}
+		if plan.Draw(3) > 0 {
+			p.Stages = append(p.Stages, &StageDef{Name: "WHOLE", SrcKind: "comp", Ins: []Field{{"p", wt}}, Outs: []Field{{"done", intT}}})
+			pl.Calls = append(pl.Calls, &CallDef{Callee: "WHOLE", Id: "WHOLE", Binds: []Bind{{"p", ref("PRODUCE"), false}}})
+		}
+		if plan.Draw(2) == 0 {
+			pl.Outs = append(pl.Outs, Field{"whole", wt})
+			pl.Ret = append(pl.Ret, Bind{"whole", ref("PRODUCE"), false})
 		}
 	}
 	if plan.Draw(3) == 0 {
